@@ -27,6 +27,19 @@ class _Base:
     def finalize(self):
         LOG.append(["finalize", [], {}])
 
+    # extra methods (meta["extra_methods"]); two of the names are parts of the name of a request that old versions do not get
+    def setup(self, *a, **k):
+        LOG.append(["setup", list(a), k])
+        return ["setup", list(a), k]
+
+    def done(self, *a, **k):
+        LOG.append(["done", list(a), k])
+        return ["done", list(a), k]
+
+    def foo(self, *a, **k):
+        LOG.append(["foo", list(a), k])
+        return ["foo", list(a), k]
+
 
 class V3Sig(_Base):
     def init(self, sid, time_resolution=1.0, **params):
